@@ -22,8 +22,8 @@ const rule = "valid paths of the C02 generator (real extender, real combinator, 
 func main() {
 	netgen.Main("C04", "Prov.check04", rule, func(x *netgen.Ctx) {
 		run := x.Run
-		nWorlds := run.Count(8, 60)
-		perWorld := 6
+		nWorlds := run.Count(6, 60)
+		perWorld := 4
 		if run.Tier == "thorough" {
 			perWorld = 12
 		}
